@@ -29,6 +29,8 @@ import (
 	"path/filepath"
 	"runtime/trace"
 	"strings"
+
+	"github.com/martian-lang/martian/martian/syntax"
 )
 
 //verif:stub os.Stat
@@ -1332,6 +1334,15 @@ func vrWalk(root string, walkFn filepath.WalkFunc) error { return walkFn(root, v
 //verif:stub os.Lstat
 func vrLstat(name string) (os.FileInfo, error) { return vrRegular{}, nil }
 
+//verif:stub (*github.com/martian-lang/martian/martian/core.Metadata).appendRaw
+func vrAppendRaw(self *Metadata, name MetadataFileName, text string) error {
+	self.cache(name, self.uniquifier)
+	return nil
+}
+
+//verif:stub os.Readlink
+func vrReadlink(name string) (string, error) { return "", errors.New("readlink: invalid argument") }
+
 //verif:stub path/filepath.EvalSymlinks
 func vrEvalSymlinks(name string) (string, error) { return name, nil }
 
@@ -1642,4 +1653,96 @@ func H_C01_dynamicNested(n0, n1, n2 int) {
 	want := append(append(append(flat, ']'), rs...), `]}`...)
 	verifCover("dynamic nested outputs resolved")
 	verifAssert(verifBytesEq(vrEncode(outs), want), "C01: the outputs of a pipeline mapped over a run-time array are one entry per element, each holding the results of that element's inner forks")
+}
+
+// ---- C06: a chunk whose outputs are missing or ill-typed fails the stage ----
+
+const vrChunkSrc = `
+stage SPLITTER(
+    in  int x,
+    out int o,
+    src comp "bin",
+) split (
+    in  int c,
+    out int d,
+)
+
+pipeline P(
+    in  int x,
+    out int o,
+)
+{
+    call SPLITTER(
+        x = self.x,
+    )
+
+    return (
+        o = SPLITTER.o,
+    )
+}
+
+call P(
+    x = 1,
+)
+`
+
+func vrChunkGraph() *Fork {
+	disableUniquification = false
+	return verifCached("vrChunkGraph", func() any {
+		rt := &Runtime{Config: &RuntimeOptions{JobMode: "local", VdrMode: VdrDisable}, mrjob: "/m/mrjob", adaptersPath: "/m/adapters"}
+		_, _, ps, err := rt.instantiatePipeline([]byte(vrChunkSrc), "/m/p.mro", "ps", "/ps", nil, "none", nil, false, true, context.Background())
+		if err != nil {
+			panic("fixture does not instantiate: " + err.Error())
+		}
+		return ps.node.top.allNodes["ID.ps.P.SPLITTER"].forks[0]
+	}).(*Fork)
+}
+
+var vrChunkOutKinds = []string{
+	`null`,                 // the job wrote null as its outputs
+	`{"d":4,"o":5}`,        // what the stage declares
+	`{"d":"four","o":5}`,   // an ill-typed chunk output
+	`{"o":5}`,              // a declared chunk output is missing
+	`{"d":4,"o":[5]}`,      // an ill-typed stage output
+	`{"d":4,"o":5,"zz":1}`, // an undeclared extra output
+}
+
+// H_C06_chunkOutputs(kind, level): the real Chunk.verifyOutput, which doJoin
+// calls for every chunk before it starts the join, on what a finished chunk
+// left as its _outs, at enforcement level `level` (1 log, 2 alarm, 3 error).
+//
+//	C06: whenever the chunk's outputs are rejected — _errors is written for the
+//	     chunk — the verdict is "not ok", so that the join is not started and
+//	     the stage cannot complete on top of a failed chunk; missing (null)
+//	     outputs are rejected at every level, ill-typed and missing declared
+//	     outputs at the strictest level; valid outputs are accepted without an
+//	     error.
+func H_C06_chunkOutputs(kind, level int) {
+	f := vrChunkGraph()
+	old := syntax.GetEnforcementLevel()
+	syntax.SetEnforcementLevel(syntax.LanguageEnforceLevel(level))
+	c := NewChunk(f, 0, &ChunkDef{}, 1)
+	var outs LazyArgumentMap
+	if err := vjUnmarshal([]byte(vrChunkOutKinds[kind]), &outs); err != nil {
+		panic("fixture outs do not decode")
+	}
+	vrWritten = nil
+	ok := c.verifyOutput(outs)
+	syntax.SetEnforcementLevel(old)
+	verifCover("chunk outputs verified")
+	_, failed := c.metadata.contents[Errors]
+	if failed {
+		verifCover("chunk outputs rejected")
+		verifAssert(!ok, "C06: a chunk whose outputs were rejected (_errors written) never lets the join start")
+	}
+	switch kind {
+	case 0:
+		verifAssert(failed && !ok, "C06: a chunk job that produced no outputs (null) fails the stage")
+	case 1:
+		verifAssert(ok && !failed, "C06: a chunk with outputs of the declared shape is accepted")
+	case 2, 3, 4:
+		if level == 3 {
+			verifAssert(failed && !ok, "C06: a chunk with ill-typed or missing declared outputs fails the stage at the strictest enforcement level")
+		}
+	}
 }
